@@ -22,7 +22,8 @@ Inductive action :=
 | AClose
 | ACancel (c : nat)
 | ASetQid (n : N)
-| AExpire.                              (* the armed read deadline expires: Read fails with a timeout *)                      (* test hook VerifSetNextQid: forces the wire-id counter *)
+| AExpire                               (* the armed read deadline expires: Read fails with a timeout *)
+| ARunt (n : N).                        (* datagram framing only: a datagram of n < 12 bytes arrives; the reader skips it *)                      (* test hook VerifSetNextQid: forces the wire-id counter *)
 
 (** What the harness saw. [o_code]: AReserve: 0 admitted, 1 refused (full),
     2 refused (closed); AStart: wire id + 1 of the query written, 0 if the call
@@ -106,6 +107,7 @@ Definition exec_action (s : st) (held : list nat) (a : action) (o : obs) : optio
   | AExpire =>
     let k := match arms s with ArmWaiting :: _ => 2 | _ => 1 end in
     match step s LRecvErr with Some s1 => Some (s1, held, o_code o =? k) | None => None end
+  | ARunt _ => if is_tcp s then None else Some (s, held, true)
   | ASetQid n =>
     Some (mkSt (closed s) (close_err s) (queue s) (wrap16 n) (reserved s) (qlen s) (max_cq s) (is_tcp s)
                (calls s) (live s) (hold s) (htarget s) (reader_dead s) (waiting_resp s) (arms s), held, true)
